@@ -936,7 +936,10 @@ class ExcludeRegionState(object):  # pylint: disable=too-many-instance-attribute
             self.pendingCommands[gcode] = pendingArgs
 
             for label, value in self.gcodeParser.parse(cmd).parameterItems():
-                pendingArgs[label] = value
+                # Skip the pseudo string argument (label ''), it repeats the text of any
+                # parameter without a value, which would then be output twice
+                if (label):
+                    pendingArgs[label] = value
         elif (mode == EXCLUDE_EXCEPT_FIRST):
             # Capture the first instance of the command encountered
             if (not (gcode in self.pendingCommands)):
